@@ -918,3 +918,56 @@ Proof.
   intros st et cs e D. pose proof (define_error_state st et cs e D) as S.
   split; [exact S|]. split; intros; rewrite S; reflexivity.
 Qed.
+
+(** * Every primitive alias resolves as listed, in any letter case, alone and as [T | null] *)
+
+Lemma to_lower_idem : forall c, to_lower (to_lower c) = to_lower c.
+Proof. intro c. unfold to_lower. repeat match goal with |- context [if ?b then _ else _] => destruct b eqn:? end; lia. Qed.
+
+Lemma to_lower_upper : forall c, to_lower (to_upper c) = to_lower c.
+Proof. intro c. unfold to_lower, to_upper. repeat match goal with |- context [if ?b then _ else _] => destruct b eqn:? end; lia. Qed.
+
+Theorem alias_case_insensitive : forall s s',
+  map to_lower s = map to_lower s' -> from_primitive_str s = from_primitive_str s'.
+Proof. intros s s' H. unfold from_primitive_str. rewrite H. reflexivity. Qed.
+
+Corollary alias_upper : forall s, from_primitive_str (map to_upper s) = from_primitive_str s.
+Proof.
+  intro s. apply alias_case_insensitive. rewrite map_map. apply map_ext. apply to_lower_upper.
+Qed.
+
+Definition bar_null : bytes := [32; 124; 32; 110; 117; 108; 108]%N.   (* " | null" *)
+Definition null_bar : bytes := [110; 117; 108; 108; 32; 124; 32]%N.   (* "null | " *)
+
+Definition alias_ok (e : bytes * N) : bool :=
+  match prim_of_code (snd e) with
+  | None => false
+  | Some p =>
+      match from_spec_with_nullable (fst e), from_spec_with_nullable (map to_upper (fst e)),
+            from_spec_with_nullable (fst e ++ bar_null), from_spec_with_nullable (null_bar ++ fst e) with
+      | Some (FPrim p1), Some (FPrim p2), Some (FOpt p3), Some (FOpt p4) =>
+          match p, p1, p2, p3, p4 with
+          | TString, TString, TString, TString, TString
+          | TU64, TU64, TU64, TU64, TU64
+          | TI64, TI64, TI64, TI64, TI64
+          | TF64, TF64, TF64, TF64, TF64
+          | TBool, TBool, TBool, TBool, TBool
+          | TTimestamp, TTimestamp, TTimestamp, TTimestamp, TTimestamp
+          | TDate, TDate, TDate, TDate, TDate => true
+          | _, _, _, _, _ => false
+          end
+      | _, _, _, _ => false
+      end
+  end.
+
+(** a finite sweep over the regenerated alias table (19 entries on the pinned tree) *)
+Theorem alias_resolution : forallb alias_ok schema_alias_table = true /\ (1 <= length schema_alias_table)%nat.
+Proof. split; [vm_compute; reflexivity|vm_compute; lia]. Qed.
+
+Theorem unknown_spec_is_string : forall s,
+  from_spec_with_nullable s = None -> field_of_spec (SPrim s) = FPrim TString.
+Proof. intros s H. unfold field_of_spec. rewrite H. reflexivity. Qed.
+
+Example unknown_spec_witness :
+  from_spec_with_nullable [102; 111; 111; 32; 124; 32; 110; 117; 108; 108]%N = None.   (* "foo | null" *)
+Proof. vm_compute. reflexivity. Qed.
